@@ -311,6 +311,9 @@ def _raw_case(job):
         peer_send(ContentType.handshake, bytes([24 if f["ver"] == 4 else 0, 0xFF, 0xFF, 0xFF]) + b"x" * 10)
     elif kind == "ccs-after":
         peer_send(ContentType.change_cipher_spec, b"\x01")
+    elif kind.startswith("protected-type-"):
+        # a correctly protected record whose (inner) content type is not a TLS content type
+        peer_send(int(kind.rsplit("-", 1)[1]), b"\x01\x02")
     elif kind == "heartbeat-garbage":
         peer_send(ContentType.heartbeat, b"\x09")
     elif kind == "keyupdate-truncated":
@@ -462,7 +465,7 @@ def semantic_mutants(tok, raw, ver):
         out.append(("ch-empty-psk-identity", None))
         out.append(("ch-empty-compress-list", None))
         out.append(("ch-sni-empty-name", None))
-    if tok in ("CH", "SH", "HRR"):
+    if tok in ("CH", "SH", "HRR", "EE"):
         # every extension of the hello, payload replaced: empty / zeros / header kept + zeros / first half / one zero byte
         for et in hello_ext_types(tok, raw):
             for how in ("empty", "zeros", "zerotail", "half", "byte0", "ones"):
@@ -470,11 +473,15 @@ def semantic_mutants(tok, raw, ver):
     return out
 
 
+def _ext_msg(raw):
+    from tlslite.messages import ClientHello, ServerHello, EncryptedExtensions
+    return {1: ClientHello, 2: ServerHello, 8: EncryptedExtensions}[raw[0]]()
+
+
 def hello_ext_types(tok, raw):
-    from tlslite.messages import ClientHello, ServerHello
     from tlslite.utils.codec import Parser
     try:
-        m = (ClientHello() if tok == "CH" else ServerHello()).parse(Parser(bytearray(raw[1:])))
+        m = _ext_msg(raw).parse(Parser(bytearray(raw[1:])))
         return [e.extType for e in (m.extensions or [])]
     except Exception:
         return []
@@ -494,7 +501,7 @@ def object_mutant(name, raw):
         if name.startswith("ext-"):
             _, et, how = name.split("-")
             et = int(et)
-            m = (ClientHello() if raw[0] == 1 else ServerHello()).parse(Parser(bytearray(raw[1:])))
+            m = _ext_msg(raw).parse(Parser(bytearray(raw[1:])))
             new = []
             for e in (m.extensions or []):
                 if e.extType == et:
@@ -650,7 +657,7 @@ def run(tier):
         outs = pool.map(run_case, jobs, chunksize=16)
     RAW = ["record-oversized", "record-unknown-type", "record-ssl2-header", "record-empty-handshake", "record-empty-alert", "alert-len1",
            "alert-len3", "alert-unknown-level", "hs-hugelen-after", "ccs-after", "heartbeat-garbage", "keyupdate-truncated", "nst-truncated",
-           "garbage-bytes", "appdata-zero-many"]
+           "garbage-bytes", "appdata-zero-many", "protected-type-99", "protected-type-0", "protected-type-25", "protected-type-255"]
     rjobs = []
     for f in (F(3, "ecdhe_rsa"), F(4, "tls13"), F(1, "rsa")):
         for role in ("c", "s"):
